@@ -7,6 +7,18 @@ props = [json.loads(l) for l in open(os.path.join(ROOT, "properties.jsonl"))]
 E = "exploration"
 # id -> (category, technique, what the level gives, trusted base / assumptions)
 CHECKS = {
+ "C01": (E, "proptest differential vs reference executor on a derive-built schema (data worlds, typed documents)",
+   "44k (world, document, variables) cases per quick run on static schema Z (two interfaces, two unions, renamed enum item, all list/nullability wrappers); data compared exactly and errors by path+location with an executor written from spec section 6; classes for union/interface conditions, nested fragments, defaulted directive variables, repeated keys have floors.",
+   "The Sch mirror of Z is read from Z's own SDL by the reference parser (SDL fidelity is C17's subject). Documents valid by construction."),
+ "C03": ("fault_enumeration", "fault enumeration over every resolved position x fault kind (+ pairs) against the reference executor",
+   "For each generated tree EVERY (node, field) touched by the fault-free execution is failed once per applicable fault kind (resolver error; dynamic: invalid enum/custom-scalar value, nothing for non-null), plus all fault pairs for small trees; ~60k single and ~40k pair executions per quick run over static Z, its dynamic mirror and random dynamic schemas.",
+   "Guard rejections not injected; repeated response keys excluded while C04-F1 is open (their errors are reported once per occurrence)."),
+ "C04": (E, "proptest with invocation-log invariant (resolve-once) and schedule exploration for mutation seriality",
+   "Resolver starts per response path are counted on static and dynamic schemas for documents with repeated keys; mutation root fields are run with every resolver gated under generated gate orders and the log must show root field i completely finished before root field i+1 starts.",
+   "C04-F1 (occurrences executed separately) is open: main streams exclude repeated keys, probe streams require the log to match the exact per-occurrence quirk model."),
+ "C05": (E, "bounded-exhaustive enumeration of completion orders (all priority orders of <=6 gated resolvers) + generated orders, metamorphic + reference",
+   "2000 documents x all k! gate priority orders (k<=6) and 4000 documents x 8 generated orders with all resolvers gated (~150k gated executions per quick run), failing resolvers at nullable positions; data and error multiset must be order-independent and equal to the reference.",
+   "Deterministic single-threaded executor owns the schedule; failing non-null siblings excluded (they legitimately race)."),
  "C02": (E, "proptest differential vs reference executor (random dynamic schemas, worlds, typed documents)",
    "Every case builds a random dynamic type system, a data world valid for it and a valid document with variables, executes it and compares data exactly and errors by path+location with an executor written from spec section 6. Search over tens of thousands of (schema, world, document) triples with shrinking; no absence proof.",
    "Trusts the harness's reference executor/coercion and that generated documents are valid (by construction). Null items in lists of composite type are not expressible in the dynamic API and are out of domain."),
